@@ -121,6 +121,8 @@ func handlePUSH(params x86genParams, ctx *CodeGenContext) ([]byte, error) {
 			}
 		}
 
+		// 即値の幅は下でビットモードから決めるため、即値の大きさ由来の 66h/67h プレフィックスは付けない
+		code = code[:0]
 		if immVal >= -128 && immVal <= 127 { // Check if imm8 fits
 			code = append(code, 0x6A, byte(immVal)) // Append opcode and immediate
 			return code, nil
